@@ -1230,10 +1230,19 @@ With it: `close_frontier_node`'s `fill_before(…, True)` runs from the state af
 closed node's content is accepted (`fillBeforeTypes_exact`) — validity of closed nodes; and
 `content_match_at(child_count)` on the re-opened node of `place_nodes` is `run 0 (types kids)`, which
 succeeds exactly when the node is not a partial node (`Slice.noPartialNode`).  `coherentB` IS an
-invariant of the loop: `coherent_invariant` below (Proofs/FitCoherent.lean).  Still missing for the two
-statements: `closeNodeStart`'s own validity (fill prefix + children accepted; needs the request slice's
-`openValid`), that mark filtering (`allowedMarks`) keeps mark sets canonical, and the assembly of
-`openValid` for the emitted slice from `Coh` at the moment each node is closed. -/
+invariant of the loop: `coherent_invariant` below (Proofs/FitCoherent.lean).  In place for payload validity
+(Proofs/FitValid.lean, not yet assembled into a theorem about `replaceStep`): fillers are valid nodes
+without marks (`createAndFillO_valid`, `fillOpt_valid`; guards `detB`, `leafOkB`); the chain of the
+document's nodes above the frontier's depth (`PureV`) with `addToFragment_pure`, `PureV_openValid`,
+`PureV_unsnoc`; `close_frontier_node` on that chain (`closeFrontierNode_pureV`: the closed node receives
+valid fillers and is valid up to its open start) — the whole of `close` for a *deletion*, where every
+closed node is one of the document's; the final `while` (`normalizeOpen_openValid`).  Still missing:
+for deletions the re-opening phase of `close` (adding a node with valid fillers at the open end:
+`openValid a b → openValid a (b+1)`) and the assembly; for slices that are placed, `closeNodeStart`'s own
+validity (fill prefix + children accepted; needs the request slice's `openValid` carried along the
+unplaced slice), that mark filtering (`allowedMarks`) keeps mark sets canonical, and closed-node validity
+from `Coh` at the moment `close_frontier_node` closes a node the Fitter opened (`fillBeforeTypes_sound` from
+the coherent state gives acceptance). -/
 
 /-- **`coherent_invariant`** — the key invariant `FitState.coherentB` (with the ghost level) is an invariant
     of the loop of `fit` (Proofs/FitCoherent.lean, `Coh` = the proposition behind the Boolean):
